@@ -5,8 +5,11 @@ proofs use sums or cell widths."""
 
 def register(R):
     def induction_steps():
+        import multiprocessing as mp
         from vf.pyvc.lemmalib import check_all
-        rows = check_all()
+        # in a child process: the main process stays free of z3 activity (vf/pyvc/driver.py relies on that)
+        with mp.get_context("fork").Pool(1) as pool:
+            rows = pool.apply(check_all)
         bad = [f"{name}: base={b} step={s_} non-vacuous={nv}" for name, b, s_, nv in rows if not (b and s_ and nv)]
         return (not bad, "; ".join(bad) or f"base case and induction step of all {len(rows)} lemma schemas discharged by z3; each step needs its unfolding equation", 3 * len(rows))
 
